@@ -1,13 +1,19 @@
 package txgen
 
 import (
+	"encoding/binary"
+	"fmt"
 	"math/big"
+	"sort"
 	"sync"
 
 	"github.com/lianxiangcloud/linkchain/libs/common"
+	"github.com/lianxiangcloud/linkchain/libs/crypto"
 	lktypes "github.com/lianxiangcloud/linkchain/libs/cryptonote/types"
 	"github.com/lianxiangcloud/linkchain/libs/cryptonote/xcrypto"
 	"github.com/lianxiangcloud/linkchain/types"
+
+	"verif/sim/kernel"
 )
 
 var (
@@ -32,6 +38,37 @@ func UtxoReady() bool {
 	return utxoReady
 }
 
+// drbg is a Keccak counter-mode generator: the model's randomness (tx keys,
+// pseudo-out masks, signature nonces) is a function of 32 tape bytes, and stays
+// non-degenerate when a shrunk tape serves zeros.
+type drbg struct {
+	seed []byte
+	ctr  uint64
+	buf  []byte
+}
+
+func (d *drbg) Read(p []byte) (int, error) {
+	for i := range p {
+		if len(d.buf) == 0 {
+			var c [8]byte
+			binary.LittleEndian.PutUint64(c[:], d.ctr)
+			d.ctr++
+			d.buf = crypto.Keccak256([]byte("txgen-drbg"), d.seed, c[:])
+		}
+		p[i] = d.buf[0]
+		d.buf = d.buf[1:]
+	}
+	return len(p), nil
+}
+
+// SeedCrypto makes the xcrypto model's randomness a function of the tape
+// (process-wide; call once per run before confidential transactions are built).
+func SeedCrypto(t *kernel.Tape) {
+	if UtxoReady() {
+		xcrypto.SetRand(&drbg{seed: t.Bytes(32)})
+	}
+}
+
 // Wallet is a confidential wallet held by the generator.
 type Wallet struct {
 	Index int
@@ -41,20 +78,681 @@ type Wallet struct {
 	Subs     []lktypes.AccountAddress // Subs[0] is the main address
 }
 
-type utxoInfo struct {
-	kind     types.UTXOKind
-	from     common.Address // account side payer (zero for pure UTXO input)
-	accIn    *big.Int       // account input amount (value + fee for the coin)
-	accOut   *big.Int       // account output amount
-	accTo    common.Address
-	fee      *big.Int
-	spends   []*Hidden
-	outs     []*Hidden // new hidden outputs in output order (Index filled at apply time)
-	tampered string
+// NewWallet derives a wallet (spend key from the tape, view key from the spend
+// key, nSub sub-addresses).
+func NewWallet(t *kernel.Tape, index, nSub int) *Wallet {
+	seed := crypto.Keccak256(t.Bytes(32), []byte(fmt.Sprintf("wallet-%d", index)))
+	var rk lktypes.SecretKey
+	copy(rk[:], seed)
+	rk[31] &= 0x0f
+	rk[0] |= 1
+	ssk, spk := xcrypto.GenerateKeys(rk)
+	var vrk lktypes.SecretKey
+	copy(vrk[:], crypto.Keccak256(ssk[:]))
+	vrk[31] &= 0x0f
+	vrk[0] |= 1
+	vsk, vpk := xcrypto.GenerateKeys(vrk)
+	w := &Wallet{Index: index, KeyIndex: map[lktypes.PublicKey]uint64{}}
+	w.Acc = lktypes.AccountKey{Addr: lktypes.AccountAddress{SpendPublicKey: spk, ViewPublicKey: vpk}, SpendSKey: ssk, ViewSKey: vsk}
+	w.KeyIndex[spk] = 0
+	w.Subs = append(w.Subs, w.Acc.Addr)
+	for i := 1; i <= nSub; i++ {
+		sub := xcrypto.GetSubaddress(&w.Acc, uint32(i))
+		w.KeyIndex[sub.SpendPublicKey] = uint64(i)
+		w.Subs = append(w.Subs, sub)
+	}
+	return w
 }
 
-func (g *Gen) initWallets() {}
+// hiddenAux is what the owning wallet remembers about an output.
+type hiddenAux struct {
+	rKey     lktypes.PublicKey
+	outIndex uint64 // position among the UTXO outputs of its transaction
+	mask     lktypes.Key
+	otAddr   lktypes.Key
+	commit   lktypes.Key
+}
 
-func (g *Gen) makeUtxo(k Kind, from *Account) *Item { return nil }
+type utxoInfo struct {
+	kind   types.UTXOKind
+	token  common.Address
+	from   common.Address // account side: payer of the account input / signer paying a token tx's fee
+	accIn  *big.Int       // account input amount (for the coin: value + fee)
+	accOut *big.Int       // account output amount
+	accTo  common.Address
+	fee    *big.Int  // the transaction's Fee field
+	spends []*Hidden // hidden outputs consumed
+	outs   []*Hidden // hidden outputs created, in output order (Index is assigned when applied)
+	// forged > 0: a deliberately unbalanced transaction (the inputs are claimed
+	// to hold `forged` more than they do); only meaningful if the chain accepts it
+	forged  *big.Int
+	tamper  string
+	nonceTx bool // consumes an account nonce (account input)
+}
 
-func (l *Ledger) applyUTXO(it *Item, r *types.Receipt, fee *big.Int, height uint64, ok bool) {}
+func (g *Gen) initWallets() {
+	wt := g.T.Fork("wallets")
+	for i := 0; i < g.Cfg.Wallets; i++ {
+		g.wallets = append(g.wallets, NewWallet(wt, i, 2))
+	}
+	SeedCrypto(g.T.Fork("xcrypto-rand"))
+}
+
+// Wallets returns the generator's confidential wallets.
+func (g *Gen) Wallets() []*Wallet { return g.wallets }
+
+// rateOf returns the commitment unit of a token as the generator knows it
+// (coin: the chain's constant; issued tokens: from the decimals it deployed them with).
+func (g *Gen) rateOf(token common.Address) *big.Int {
+	if token == Native {
+		return bi(types.UTXO_COMMITMENT_CHANGE_RATE)
+	}
+	c := g.L.Contracts[token]
+	if c == nil {
+		return nil
+	}
+	r, err := types.UTXOChangeRateFromUint8(c.Decimals)
+	if err != nil {
+		return nil
+	}
+	return bi(r)
+}
+
+func (g *Gen) utxoGas() uint64 {
+	if g.Cfg.UTXOGas > 0 {
+		return g.Cfg.UTXOGas
+	}
+	return types.DefaultCoefficient().UTXOFee.Uint64()
+}
+
+// scan plays the receiving wallet: finds the outputs of tx that belong to w,
+// decodes amount and mask and checks that they open the on-chain commitment.
+func scan(w *Wallet, tx *types.UTXOTransaction, rate *big.Int) ([]*Hidden, error) {
+	rkeys := append([]lktypes.PublicKey{tx.RKey}, tx.AddKeys...)
+	var deriv []lktypes.KeyDerivation
+	var derivKey []lktypes.PublicKey
+	for _, rk := range rkeys {
+		d, err := xcrypto.GenerateKeyDerivation(rk, w.Acc.ViewSKey)
+		if err == nil {
+			deriv = append(deriv, d)
+			derivKey = append(derivKey, rk)
+		}
+	}
+	var res []*Hidden
+	n := uint64(0)
+	for _, out := range tx.Outputs {
+		uo, ok := out.(*types.UTXOOutput)
+		if !ok {
+			continue
+		}
+		idx := n
+		n++
+		d, sub, err := types.IsOutputBelongToAccount(&w.Acc, w.KeyIndex, uo.OTAddr, deriv, idx)
+		if err != nil {
+			continue
+		}
+		scalar, err := xcrypto.DerivationToScalar(d, int(idx))
+		if err != nil {
+			return nil, err
+		}
+		tup := tx.RCTSig.EcdhInfo[idx]
+		if !xcrypto.EcdhDecode(&tup, lktypes.Key(scalar), false) {
+			return nil, fmt.Errorf("EcdhDecode failed")
+		}
+		_, commits, _, err := xcrypto.TlvProveRangeBulletproof(lktypes.KeyV{tup.Amount}, lktypes.KeyV{lktypes.Key(scalar)})
+		if err != nil {
+			return nil, err
+		}
+		c8, _ := xcrypto.Scalarmult8(commits[0])
+		if c8 != tx.RCTSig.OutPk[idx].Mask {
+			return nil, fmt.Errorf("decoded amount/mask do not open the output commitment")
+		}
+		var rk lktypes.PublicKey
+		for i := range deriv {
+			if deriv[i] == d {
+				rk = derivKey[i]
+			}
+		}
+		res = append(res, &Hidden{Token: tx.TokenID, Amount: new(big.Int).Mul(types.Hash2BigInt(tup.Amount), rate), Owner: w.Index, Sub: sub,
+			aux: &hiddenAux{rKey: rk, outIndex: idx, mask: tup.Mask, otAddr: uo.OTAddr, commit: tx.RCTSig.OutPk[idx].Mask}})
+	}
+	return res, nil
+}
+
+// hiddenDest draws a confidential destination: wallet and (sub-)address.
+func (g *Gen) hiddenDest(amount *big.Int, prefer int) (*types.UTXODestEntry, *Wallet) {
+	w := g.wallets[g.T.Int(len(g.wallets))]
+	if prefer >= 0 && g.T.Bool(1, 2) {
+		w = g.wallets[prefer]
+	}
+	sub := 0
+	if g.T.Bool(1, 3) {
+		sub = 1 + g.T.Int(len(w.Subs)-1)
+	}
+	return &types.UTXODestEntry{Addr: w.Subs[sub], Amount: cp(amount), IsSubaddress: sub > 0}, w
+}
+
+// collectOuts scans tx with every destination wallet and returns the created
+// hidden outputs in output order; it fails if an output is not recognised by
+// the wallet it was sent to or decodes to another amount.
+func (g *Gen) collectOuts(tx *types.UTXOTransaction, dests []types.DestEntry, owners []*Wallet, rate *big.Int) ([]*Hidden, error) {
+	var outs []*Hidden
+	pos := uint64(0)
+	for i, d := range dests {
+		ud, ok := d.(*types.UTXODestEntry)
+		if !ok {
+			continue
+		}
+		found, err := scan(owners[i], tx, rate)
+		if err != nil {
+			return nil, err
+		}
+		var mine *Hidden
+		for _, h := range found {
+			if h.aux.(*hiddenAux).outIndex == pos {
+				mine = h
+			}
+		}
+		if mine == nil {
+			return nil, fmt.Errorf("output %d not recognised by wallet %d", pos, owners[i].Index)
+		}
+		if mine.Amount.Cmp(ud.Amount) != 0 {
+			return nil, fmt.Errorf("output %d decodes to %v, sent %v", pos, mine.Amount, ud.Amount)
+		}
+		outs = append(outs, mine)
+		pos++
+	}
+	return outs, nil
+}
+
+func roundTo(v, unit *big.Int) *big.Int {
+	q := new(big.Int).Div(v, unit)
+	return q.Mul(q, unit)
+}
+
+// hiddenAmount draws a hidden amount (a multiple of unit) between lo and hi coins-equivalents.
+func (g *Gen) hiddenAmount(unit *big.Int, max *big.Int) *big.Int {
+	var v *big.Int
+	switch g.T.Pick(5, 2, 1) {
+	case 0:
+		v = LK(int64(100 + g.T.Int(3000)))
+	case 1:
+		v = add(LK(int64(60+g.T.Int(500))), new(big.Int).SetUint64(g.T.Uint64()%1000000000000000000))
+	default:
+		v = cp(unit) // the smallest representable amount
+	}
+	if v.Cmp(max) > 0 {
+		v = cp(max)
+	}
+	return roundTo(v, unit)
+}
+
+// AccToUtxo builds an account -> hidden transaction of the coin or of an issued token.
+func (g *Gen) AccToUtxo(from *Account, token common.Address) *Item {
+	if len(g.wallets) == 0 {
+		return nil
+	}
+	unit := g.rateOf(token)
+	if unit == nil {
+		return nil
+	}
+	nOut := 1 + g.T.Pick(4, 3, 1)
+	var dests []types.DestEntry
+	var owners []*Wallet
+	total := new(big.Int)
+	if token == Native {
+		av := g.avail(Native, from.Addr)
+		av.Sub(av, LK(2000))
+		if av.Cmp(LK(200)) < 0 {
+			return nil
+		}
+		for i := 0; i < nOut; i++ {
+			a := g.hiddenAmount(unit, new(big.Int).Div(av, bi(int64(nOut))))
+			d, w := g.hiddenDest(a, -1)
+			dests, owners = append(dests, d), append(owners, w)
+			total.Add(total, a)
+		}
+	} else {
+		av := g.avail(token, from.Addr)
+		if av.Cmp(unit) < 0 {
+			return nil
+		}
+		for i := 0; i < nOut; i++ {
+			a := roundTo(new(big.Int).Div(g.part(av), bi(int64(nOut))), unit)
+			d, w := g.hiddenDest(a, -1)
+			dests, owners = append(dests, d), append(owners, w)
+			total.Add(total, a)
+		}
+		if total.Cmp(unit) < 0 {
+			return nil
+		}
+	}
+	gas := transferGas(total)
+	if token != Native {
+		gas = transferGas(bi(0))
+	}
+	if g.T.Bool(1, 5) {
+		gas += uint64(1 + g.T.Int(100000)) // paying more than needed is allowed
+	}
+	fee := priceOf(gas)
+	n := g.nextNonce(from.Addr)
+	src := &types.AccountSourceEntry{From: from.Addr, Nonce: n, Amount: cp(total)}
+	if token == Native {
+		src.Amount.Add(src.Amount, fee)
+		if g.avail(Native, from.Addr).Cmp(src.Amount) < 0 {
+			return nil
+		}
+	} else if !g.canPay(from.Addr, gas, bi(0)) {
+		return nil
+	}
+	var tx *types.UTXOTransaction
+	var err error
+	_, _, panicked := kernel.Try(func() { tx, _, err = types.NewAinTokenTransaction(src, dests, token, fee, nil) })
+	if panicked || err != nil || tx == nil {
+		return nil
+	}
+	if err := tx.Sign(types.GlobalSTDSigner, from.Key); err != nil {
+		return nil
+	}
+	outs, err := g.collectOuts(tx, dests, owners, unit)
+	if err != nil {
+		g.LastUtxoError = err
+		return nil
+	}
+	g.pendNonce[from.Addr] = n + 1
+	if token == Native {
+		g.reserve(Native, from.Addr, src.Amount)
+	} else {
+		g.reserve(token, from.Addr, total)
+		g.reserve(Native, from.Addr, fee)
+	}
+	return g.record(&Item{Tx: tx, Kind: KAcc2Utxo, From: from.Addr, Token: token, Value: cp(total), Gas: gas,
+		utxo: &utxoInfo{kind: types.AinUout, token: token, from: from.Addr, accIn: cp(src.Amount), fee: fee, outs: outs, nonceTx: true},
+		Note: fmt.Sprintf("%s -> hidden %v of %s in %d outputs (fee %v)", from.Name, total, tokShort(token), nOut, fee)})
+}
+
+func tokShort(t common.Address) string {
+	if t == Native {
+		return "coin"
+	}
+	return fmt.Sprintf("token %x..", t[:4])
+}
+
+// OutputReader gives access to the chain's output index (normally the
+// proposing replica's UtxoStore.GetUtxoOutput).
+type OutputReader func(token common.Address, seq uint64) (*types.UTXOOutputData, error)
+
+func (g *Gen) readOutput(token common.Address, seq uint64) (*types.UTXOOutputData, error) {
+	if g.Outputs != nil {
+		return g.Outputs(token, seq)
+	}
+	hs := g.L.Hidden[token]
+	if seq >= uint64(len(hs)) {
+		return nil, fmt.Errorf("no output %d", seq)
+	}
+	a := hs[seq].aux.(*hiddenAux)
+	return &types.UTXOOutputData{OTAddr: a.otAddr, Commit: a.commit, TokenID: token, Height: hs[seq].Height}, nil
+}
+
+// spendable returns the wallet's unspent, not pending outputs of a token.
+func (g *Gen) spendable(w *Wallet, token common.Address) []*Hidden {
+	var out []*Hidden
+	for _, h := range g.L.Hidden[token] {
+		if h.Owner == w.Index && !h.Spent && !g.pendKI[hiddenID(h)] {
+			out = append(out, h)
+		}
+	}
+	return out
+}
+
+func hiddenID(h *Hidden) string { return fmt.Sprintf("%x/%d", h.Token, h.Index) }
+
+// sourceFor builds the spend description of h with a ring of the given size
+// drawn from the token's output index (always containing h).
+func (g *Gen) sourceFor(h *Hidden, ringSize int, claimed *big.Int) (*types.UTXOSourceEntry, error) {
+	a := h.aux.(*hiddenAux)
+	total := uint64(len(g.L.Hidden[h.Token]))
+	if uint64(ringSize) > total {
+		ringSize = int(total)
+	}
+	members := map[uint64]bool{h.Index: true}
+	for len(members) < ringSize {
+		members[uint64(g.T.Int(int(total)))] = true
+	}
+	var idx []uint64
+	for m := range members {
+		idx = append(idx, m)
+	}
+	sort.Slice(idx, func(i, j int) bool { return idx[i] < idx[j] })
+	src := &types.UTXOSourceEntry{RKey: a.rKey, OutIndex: a.outIndex, Amount: cp(claimed), Mask: a.mask}
+	for pos, m := range idx {
+		o, err := g.readOutput(h.Token, m)
+		if err != nil {
+			return nil, err
+		}
+		src.Ring = append(src.Ring, types.UTXORingEntry{Index: m, OTAddr: o.OTAddr, Commit: o.Commit})
+		if m == h.Index {
+			src.RingIndex = uint64(pos)
+			if o.OTAddr != a.otAddr || o.Commit != a.commit {
+				return nil, fmt.Errorf("output index %d of the chain differs from the wallet's record", m)
+			}
+		}
+	}
+	return src, nil
+}
+
+// SpendOpts steers UtxoSpend.
+type SpendOpts struct {
+	Wallet    *Wallet
+	Token     common.Address
+	ToAccount bool // hidden -> account (else hidden -> hidden)
+	// RingSize 1 = "short ring" (classic ring signature), >= 2 = MLSAG; 0 = drawn.
+	RingSize int
+	// Inflate > 0: claim that the (first) input holds Inflate more than it does
+	// and hand the surplus out (an attack; see the tamper catalogue).
+	Inflate *big.Int
+}
+
+// UtxoSpend builds a transaction spending hidden outputs of a wallet.
+func (g *Gen) UtxoSpend(o SpendOpts) *Item {
+	w, token := o.Wallet, o.Token
+	unit := g.rateOf(token)
+	if w == nil || unit == nil {
+		return nil
+	}
+	cands := g.spendable(w, token)
+	if len(cands) == 0 {
+		return nil
+	}
+	// inputs: one or two outputs, enough to carry the fee
+	g.T.Shuffle(len(cands), func(i, j int) { cands[i], cands[j] = cands[j], cands[i] })
+	nIn := 1
+	if len(cands) > 1 && g.T.Bool(1, 3) {
+		nIn = 2
+	}
+	ins := cands[:nIn]
+	inSum := new(big.Int)
+	for _, h := range ins {
+		inSum.Add(inSum, h.Amount)
+	}
+	claimedSum := cp(inSum)
+	if o.Inflate != nil {
+		claimedSum.Add(claimedSum, o.Inflate)
+	}
+	ring := o.RingSize
+	if ring == 0 {
+		ring = []int{1, 2, 3, 5, 11}[g.T.Pick(3, 3, 2, 1, 1)]
+	}
+	if ring > 1 && len(g.L.Hidden[token]) < 2 {
+		ring = 1
+	}
+	// fee and outputs
+	var (
+		dests  []types.DestEntry
+		owners []*Wallet
+		accTo  common.Address
+		accOut = new(big.Int)
+		signer *Account
+	)
+	var gas uint64
+	budget := cp(claimedSum)
+	if token != Native {
+		signer = g.pickAcct()
+	}
+	if o.ToAccount {
+		accTo = g.eoaTarget()
+	}
+	withChange := g.T.Bool(2, 3)
+	// gas the chain demands for this shape (the generator may pay more, never less)
+	feeFor := func(prim *big.Int, change bool) uint64 {
+		gs := uint64(0)
+		if o.ToAccount {
+			if token == Native {
+				gs += transferGas(prim)
+			} else {
+				gs += transferGas(bi(0))
+			}
+			if change {
+				gs += g.utxoGas()
+			}
+		} else {
+			gs += g.utxoGas()
+		}
+		return gs
+	}
+	var fee, primary, rest *big.Int
+	if token == Native {
+		// the fee comes out of the hidden value: primary + change + fee = claimed inputs
+		maxFee := priceOf(transferGas(budget) + g.utxoGas())
+		room := sub(budget, maxFee)
+		if room.Cmp(unit) < 0 {
+			return nil
+		}
+		primary = roundTo(g.part(room), unit)
+		if primary.Sign() == 0 && (o.ToAccount || g.T.Bool(3, 4)) {
+			primary = roundTo(room, unit)
+		}
+		gas = feeFor(primary, withChange)
+		fee = priceOf(gas)
+		rest = sub(sub(budget, primary), fee)
+		if !withChange || rest.Sign() == 0 {
+			// no change output: what is left over is paid as fee, which must stay a
+			// multiple of the gas price; the sub-price remainder joins the primary amount
+			withChange = false
+			gas = feeFor(primary, false)
+			fee = priceOf(gas)
+			rest = sub(sub(budget, primary), fee)
+			e := new(big.Int).Mod(rest, bi(types.ParGasPrice))
+			primary.Add(primary, e)
+			fee = sub(budget, primary)
+			if fee.Cmp(priceOf(feeFor(primary, false))) < 0 {
+				return nil
+			}
+			gas = new(big.Int).Div(fee, bi(types.ParGasPrice)).Uint64()
+			rest = new(big.Int)
+		}
+	} else {
+		// token: hidden in == hidden/account out, the fee is paid in coin by the signer
+		primary = roundTo(g.part(budget), unit)
+		if primary.Sign() == 0 {
+			primary = cp(budget)
+		}
+		rest = sub(budget, primary)
+		if !withChange || rest.Sign() == 0 {
+			primary, rest, withChange = cp(budget), new(big.Int), false
+		}
+		gas = feeFor(primary, withChange)
+		if g.T.Bool(1, 5) {
+			gas += uint64(1 + g.T.Int(100000))
+		}
+		fee = priceOf(gas)
+		if !g.canPay(signer.Addr, gas, bi(0)) {
+			return nil
+		}
+	}
+	if o.ToAccount {
+		accOut = cp(primary)
+		dests, owners = append(dests, &types.AccountDestEntry{To: accTo, Amount: cp(primary)}), append(owners, nil)
+	} else {
+		d, ow := g.hiddenDest(primary, -1)
+		dests, owners = append(dests, d), append(owners, ow)
+	}
+	if withChange {
+		d, ow := g.hiddenDest(rest, w.Index)
+		dests, owners = append(dests, d), append(owners, ow)
+	}
+	if o.ToAccount && accOut.Cmp(unit) < 0 {
+		return nil
+	}
+	// sources
+	var sources []*types.UTXOSourceEntry
+	for i, h := range ins {
+		claimed := cp(h.Amount)
+		if i == 0 && o.Inflate != nil {
+			claimed.Add(claimed, o.Inflate)
+		}
+		s, err := g.sourceFor(h, ring, claimed)
+		if err != nil {
+			g.LastUtxoError = err
+			return nil
+		}
+		sources = append(sources, s)
+	}
+	var tx *types.UTXOTransaction
+	var err error
+	_, _, panicked := kernel.Try(func() {
+		var ephs []*types.UTXOInputEphemeral
+		var mkeys lktypes.KeyV
+		tx, ephs, mkeys, _, err = types.NewUinTokenTransaction(&w.Acc, w.KeyIndex, sources, dests, token, common.EmptyAddress, fee, nil)
+		if err != nil {
+			return
+		}
+		if signer != nil {
+			if err = tx.Sign(types.GlobalSTDSigner, signer.Key); err != nil {
+				return
+			}
+		}
+		err = types.UInTransWithRctSig(tx, sources, ephs, dests, mkeys)
+	})
+	if panicked || err != nil || tx == nil {
+		if err != nil {
+			g.LastUtxoError = err
+		}
+		return nil
+	}
+	// what travels on the wire does not contain these
+	tx.RCTSig.Message = lktypes.Key{}
+	tx.RCTSig.MixRing = nil
+	for i := range tx.RCTSig.P.MGs {
+		tx.RCTSig.P.MGs[i].II = nil
+	}
+	outs, err := g.collectOuts(tx, dests, owners, unit)
+	if err != nil {
+		g.LastUtxoError = err
+		return nil
+	}
+	for _, h := range ins {
+		g.pendKI[hiddenID(h)] = true
+	}
+	kind, ukind := KUtxo2Utxo, types.UinUout
+	if o.ToAccount {
+		kind, ukind = KUtxo2Acc, types.UinAout
+		if withChange {
+			ukind |= types.Uout
+		}
+	}
+	info := &utxoInfo{kind: ukind, token: token, accOut: accOut, accTo: accTo, fee: cp(fee), spends: ins, outs: outs}
+	from := common.EmptyAddress
+	if signer != nil {
+		from = signer.Addr
+		info.from = from
+		g.reserve(Native, from, fee)
+	}
+	if o.Inflate != nil {
+		info.forged = cp(o.Inflate)
+	}
+	return g.record(&Item{Tx: tx, Kind: kind, From: from, Token: token, Value: cp(primary), Gas: gas, utxo: info,
+		Note: fmt.Sprintf("wallet%d spends %d hidden (%v %s, ring %d) -> %s %v, change %v, fee %v", w.Index, len(ins), inSum, tokShort(token), ring, map[bool]string{true: "account", false: "hidden"}[o.ToAccount], primary, withChange, fee)})
+}
+
+func (g *Gen) makeUtxo(k Kind, from *Account) *Item {
+	if len(g.wallets) == 0 {
+		return nil
+	}
+	// token choice: mostly the coin, sometimes an issued token somebody holds
+	token := Native
+	if g.T.Bool(1, 4) {
+		var ts []common.Address
+		for _, t := range g.L.Tokens() {
+			if t != Native && !g.L.OpaqueTokens[t] && g.rateOf(t) != nil {
+				ts = append(ts, t)
+			}
+		}
+		if len(ts) > 0 {
+			token = ts[g.T.Int(len(ts))]
+		}
+	}
+	switch k {
+	case KAcc2Utxo:
+		if token != Native {
+			// a generator account holding the token
+			var hs []*Account
+			for _, h := range g.L.HoldersOf(token) {
+				if a := g.byAddr[h]; a != nil && g.avail(token, h).Sign() > 0 {
+					hs = append(hs, a)
+				}
+			}
+			if len(hs) == 0 {
+				token = Native
+			} else {
+				from = hs[g.T.Int(len(hs))]
+			}
+		}
+		return g.AccToUtxo(from, token)
+	case KUtxo2Utxo, KUtxo2Acc:
+		// a wallet with something to spend
+		var ws []*Wallet
+		for _, w := range g.wallets {
+			if len(g.spendable(w, token)) > 0 {
+				ws = append(ws, w)
+			}
+		}
+		if len(ws) == 0 && token != Native {
+			token = Native
+			for _, w := range g.wallets {
+				if len(g.spendable(w, token)) > 0 {
+					ws = append(ws, w)
+				}
+			}
+		}
+		if len(ws) == 0 {
+			return nil
+		}
+		return g.UtxoSpend(SpendOpts{Wallet: ws[g.T.Int(len(ws))], Token: token, ToAccount: k == KUtxo2Acc})
+	}
+	return nil
+}
+
+// ---------------------------------------------------------------- ledger side
+
+func (l *Ledger) applyUTXO(it *Item, r *types.Receipt, fee *big.Int, height uint64, ok bool) {
+	u := it.utxo
+	if !ok {
+		l.mismatch("status/"+string(it.Kind)+"/model-ok-receipt-fail", "%s: confidential transaction failed in the VM stage (%s)", it.Note, r.VMErr)
+	}
+	if u.nonceTx {
+		l.nonce[u.from]++
+	}
+	// account side, from the transaction's contents
+	if u.accIn != nil {
+		if !l.debit(u.token, u.from, u.accIn) {
+			l.mismatch("utxo/account-input-exceeds-balance", "%s: account input %v above the modelled balance", it.Note, u.accIn)
+		}
+	}
+	if u.token != Native || (u.accIn == nil && false) {
+		// token transactions pay the fee in coin from the signer
+		if u.from != (common.Address{}) {
+			if !l.debit(Native, u.from, fee) {
+				l.mismatch("fee/exceeds-balance", "%s: fee %v exceeds the signer's modelled balance", it.Note, fee)
+			}
+		}
+	}
+	if u.accOut != nil && u.accOut.Sign() > 0 {
+		l.credit(u.token, u.accTo, u.accOut)
+	}
+	// hidden side
+	for _, h := range u.spends {
+		if h.Spent {
+			l.mismatch("utxo/double-spend-committed", "%s: hidden output %s spent twice", it.Note, hiddenID(h))
+		}
+		h.Spent = true
+	}
+	for _, h := range u.outs {
+		h.Index = uint64(len(l.Hidden[u.token]))
+		h.Height = height
+		l.Hidden[u.token] = append(l.Hidden[u.token], h)
+	}
+	if u.forged != nil && u.forged.Sign() > 0 {
+		bump(l.Forged, u.token, u.forged)
+	}
+}
